@@ -14,6 +14,21 @@ CLAIMED = {
    design="4 (C01)",
    note="Trusted: strconv (incl. floats), net/url escaping, ServeMux, protojson/proto and the custom codecs of C04-C08. Per-RPC emitted client text (URL assembly, query encoding) is verified on the extraction schema and exercised by the family only (bounded over schemas).",
    technique="contract-based deductive verification: agreement lemmas over verified contracts of the deciding generator functions and of the extracted emitted templates (event/at-call tables), z3/cvc5 race; bounded client-server end-to-end family as replayer"),
+ "C05": dict(
+   text="Partial, and labelled so. Deductive: the annotation getters that decide the wire form are proved against the specification tables (wire.spec); one representative emitted codec - the int64_encoding=NUMBER MarshalJSON of a message of the extraction schema - is verified for all values (each annotated field is written as the JSON number of its own value in its own type, omitted when zero, through event obligations on the real emitted code with trusted decimal-printing axioms); the server's encoder choice (custom codec only for a top-level json.Marshaler, protojson otherwise) is proved on the emitted template; the two plugins' codec emitters are congruent. Bounded: a depth family runs the emitted server on 5 annotated constructs x 5 contexts and compares the wire form with the documented one (quick tier too). It shows that annotations are lost below the top-level message and that enum custom values are never used: six known findings.",
+   design="4 (C05)",
+   note="The other codecs (enum, nullable, empty_behavior, timestamp, bytes, flatten, oneof, unwrap) are covered only by the family and the congruence rule. protojson is trusted.",
+   technique="contract-based deductive verification of one extracted emitted codec (event/at-call obligations, trusted printing axioms) and of the encoder-choice template; bounded depth family over httptest as replayer and stand-in"),
+ "C06": dict(
+   text="Partial. Deductive: the OpenAPI scalar schema table (type, format, the hex pattern, unsigned minimum), the timestamp table and the enum schema (integer enum of numbers / string enum of custom-or-proto names, one entry per value) are proved against the documented wire form for every field (at-call obligations on the schema object handed to libopenapi, conditioned on the absence of buf.validate rules, which C19 covers), path and query parameter lists are proved (C18 contracts), and lemmas show the OpenAPI, TypeScript and wire tables describe the same JSON values. Bounded: the response bodies the emitted Go server sends for the C05 family are validated with python jsonschema (2020-12) against the published component schemas (quick tier too); five known findings, all rooted in the C05 depth defect.",
+   design="4 (C06)",
+   note="Not covered: object/array/map/oneOf shapes, required lists, request bodies and parameter values sent by clients, error responses, schema satisfiability.",
+   technique="contract-based deductive verification of the schema-building functions (at-call obligations), agreement lemmas over specification tables; bounded validation family with an independent JSON-Schema validator as replayer"),
+ "C07": dict(
+   text="Partial, type-level. Deductive: the TypeScript scalar type of every field is proved to be the documented JSON wire class (number for 32-bit integers and floats, for NUMBER-encoded 64-bit integers, for UNIX timestamps and NUMBER-encoded enums; string for default 64-bit integers, bytes, RFC 3339/DATE timestamps; boolean), list and message field types are proved compositional, and the presence marker of every declared property - `| null` iff nullable, else `?:` iff optional - is proved for plain and for flattened properties (event obligations on the printer calls). Lemmas relate the TypeScript table to the OpenAPI table. A structural rule shows both TypeScript plugins declare message and enum types through the same tscommon functions.",
+   design="4 (C07)",
+   note="No TypeScript checker is installed: declarations are read as the format strings the generator prints. Interfaces, unions, Record<> shapes and the TS server's handler argument are not covered; nested annotated values deviate on the wire (C05 findings).",
+   technique="contract-based deductive verification of the TypeScript type-table and declaration-printing functions (functional contracts, at-call obligations), agreement lemmas, structural sharing rule"),
  "C13": dict(
    text="Partly deductive, mostly bounded, and said so: what a contract can state is proved for all definitions - the import block of the emitted Go client agrees with what the emitted text uses (net/url is imported iff some RPC's URL code mentions it, bytes iff some RPC sends a body; deciders, import writer and per-RPC emitters carry contracts with text-event obligations, linked by a lemma to the per-RPC configuration), and the duplicated codec emitters of the two Go plugins are congruent (C14 rule), so one plugin's codec file compiles iff the other's does. Well-typedness of emitted Go in general is not expressible here; it is decided on a bounded family that really builds and vets the packages (62 definitions x {go-http, go-client, both}, run in the quick tier too). The family found ten genuine defects: one repaired (fix: %%w in emitted Errorf, a go vet failure), nine recorded as known findings by family member.",
    design="4 (C13)",
